@@ -339,7 +339,7 @@ func quantityIsMsgAmount(v ssa.Value, msgType string) bool {
 		if !xs.HasField(msgType, "Amount") {
 			return false
 		}
-		return !xs.Any(func(y ssa.Value) bool { _, isCall := y.(*ssa.Call); return isCall })
+		return !xs.Any(func(y ssa.Value) bool { c, isCall := y.(*ssa.Call); return isCall && quantityChangingCall(callInfo(c)) })
 	}
 	nNewCoin, ok := 0, true
 	s.Any(func(x ssa.Value) bool {
@@ -368,4 +368,19 @@ func quantityIsMsgAmount(v ssa.Value, msgType string) bool {
 		})
 	}
 	return true
+}
+
+// quantityChangingCall: a call through which an amount stops being "the message's amount unchanged":
+// arithmetic on Int/Dec/big.Int/Coins, or a read of some other quantity (balances, supplies, EVM results).
+// Conversions and constructors (BigInt, NewIntFromBigInt, NewCoin, NewCoins, String, …) are not listed.
+func quantityChangingCall(ci CallInfo) bool {
+	switch ci.Name {
+	case "Add", "Sub", "Mul", "Quo", "Mod", "Neg", "Abs", "AddRaw", "SubRaw", "MulRaw", "QuoRaw", "ModRaw", "SafeSub", "SafeAdd",
+		"MulInt", "QuoInt", "MulInt64", "QuoInt64", "MulTruncate", "QuoTruncate", "Exp", "Lsh", "Rsh", "Div", "Rem", "Sqrt",
+		"Min", "Max", "MinInt", "MaxInt", "BigMax", "BigMin",
+		"BalanceOf", "GetBalance", "GetAllBalances", "SpendableCoins", "SpendableCoin", "LockedCoins", "GetSupply", "AmountOf", "Find",
+		"CallEVM", "CallEVMWithData", "Unpack", "UnpackIntoInterface", "TotalAmount", "GetLockedUpCoins", "GetVestingCoins", "GetVestedCoins":
+		return true
+	}
+	return false
 }
